@@ -25,7 +25,8 @@ pub struct Step {
     /// (repetition pattern) then search; 3 jump to another root (other game, same table);
     /// 4 ucinewgame (table cleared) then extend; 5 forced cycle (perpetual check) then search;
     /// 6 search the parent of a dead position, then the dead position; 7 stopped search, then its cached descendants;
-    /// 8 deep search of a generated mating-attack root, then its cached descendants
+    /// 8 deep search of a generated mating-attack root, then its cached descendants;
+    /// 9 state twins: a position with an en-passant capture, then the same placement without the file / without a right
     pub nav: u8,
     pub back: u8,
     pub picks: Vec<Pick>,
@@ -62,7 +63,7 @@ pub const MATE_ROOTS: &[&str] = &[
 ];
 
 fn step_strategy() -> impl Strategy<Value = Step> {
-    let nav = prop_oneof![5 => Just(0u8), 3 => Just(1u8), 2 => Just(2u8), 1 => Just(3u8), 1 => Just(4u8), 1 => Just(5u8), 1 => Just(6u8), 2 => Just(7u8), 2 => Just(8u8)];
+    let nav = prop_oneof![5 => Just(0u8), 3 => Just(1u8), 2 => Just(2u8), 1 => Just(3u8), 1 => Just(4u8), 1 => Just(5u8), 1 => Just(6u8), 2 => Just(7u8), 2 => Just(8u8), 2 => Just(9u8)];
     (nav, 0u8..4, vec(pick_strategy(), 0..4), any::<u16>(), prop_oneof![2 => 1u8..3, 3 => 3u8..5, 1 => 5u8..6]).prop_map(|(nav, back, picks, root, depth)| Step { nav, back, picks, root, depth })
 }
 
@@ -138,6 +139,25 @@ impl Line {
             self.moves.extend([a, b, back_a, back_b]);
         }
     }
+}
+
+/// A sane constructed position with a capturable en-passant file, derived from two generated numbers
+fn twin_source(seed: u16, salt: u8) -> Option<Pos> {
+    let mut x = mix(seed as u64 * 911 + salt as u64 * 7);
+    for _ in 0..12 {
+        let mut next = |n: u64| {
+            x = mix(x);
+            (x >> 24) % n
+        };
+        let men: Vec<(u8, u8)> = (0..(4 + next(14))).map(|_| (next(256) as u8, next(64) as u8)).collect();
+        let c = Construct { home: next(64) as u8, wk: next(64) as u8, bk: next(64) as u8, men, white: next(2) == 0, cr: next(32) as u8, ep: 16 + next(8) as u8 };
+        if let Some(p) = c.build() {
+            if p.ep.is_some() && p.legal().iter().any(|m| m.kind == K_EP) && search_friendly(&p) {
+                return Some(p);
+            }
+        }
+    }
+    None
 }
 
 /// A sane K+Q (+R) v K (+P) position with the stronger side to move, derived from two generated numbers
@@ -280,7 +300,7 @@ impl Hist {
             let mut stop_after: Option<i64> = None;
             // depth of the search that precedes the probing of cached descendants (None: depth + 2, at most 5)
             let mut deep: Option<u8> = None;
-            match st.nav % 9 {
+            match st.nav % 10 {
                 0 => line.extend(&st.picks),
                 1 => {
                     let k = (st.back as usize).min(line.moves.len());
@@ -368,6 +388,35 @@ impl Hist {
                     }
                 }
                 8 => line.extend(&st.picks),
+                9 if sess.is_none() => {
+                    // state twins: a generated position with a capturable en-passant file (and often castling rights) is
+                    // searched first; the step then goes on with the SAME placement and side but without the en-passant
+                    // file, or without one of the castling rights. If the table cannot tell the twins apart, the move cached
+                    // for the first (an en-passant capture, a castling move) is announced for the second, where it is illegal.
+                    if let Some(first) = twin_source(st.root, st.back) {
+                        let l1 = Line { start: first.clone(), moves: Vec::new() };
+                        let g1 = engine_game(&l1)?;
+                        let d1 = (st.depth.clamp(1, 4)) + 1;
+                        let out = srch::run_search(&g1, &mut table, Some(d1), 30_000);
+                        let text1 = format!("position fen {}", first.fen6());
+                        if let Some(pn) = out.panicked {
+                            return Err(Fail::new("panic", format!("search {} ({} depth {}): {}", i, text1, d1, pn)));
+                        }
+                        self.judge_search(&first, &text1, d1, &out.best, &out.lines, false, false, i, ev)?;
+                        let mut twin = first.clone();
+                        let rights: Vec<usize> = (0..4).filter(|&k| twin.cr[k]).collect();
+                        if st.back % 2 == 0 || rights.is_empty() {
+                            twin.ep = None;
+                        } else {
+                            twin.cr[rights[st.root as usize % rights.len()]] = false;
+                        }
+                        ev.class("state_twin_steps");
+                        line = Line { start: twin, moves: Vec::new() };
+                    } else {
+                        line.extend(&st.picks);
+                    }
+                }
+                9 => line.extend(&st.picks),
                 _ => {
                     table.clear();
                     if let Some(s) = sess.as_mut() {
@@ -546,7 +595,7 @@ impl Prop for Hist {
     }
 
     fn rule(&self) -> String {
-        let common = "Cases (stateful): a start position and 1-8 steps; each step navigates the game (extend by generated picks / take back 0-3 plies and extend / add an a-b-a-b shuffle so that the repetition filter triggers / jump to another curated root / ucinewgame / a forced four-ply cycle (perpetual check) so that the root has a single legal move which is also the move the repetition filter removes / search the parent of a mating or stalemating move to depth 3-5 and then the dead position itself / a search STOPPED by the hook after 0-159 polls followed by searches of every cached child and grandchild as roots of their own / a generated K+Q(+R) v K(+P) root searched to depth 5-7 followed by searches of up to 150 cached positions one and three plies further down - where the defender is to move and which the mate search visited off its principal line) and then searches the reached position to depth 1-5, all steps sharing ONE transposition table, in-process (get_best_move_until_stop on a game built with push_history) or, for about 1 history in 6, through the real binary (`position fen … moves …`, `go depth d`, `wait`). ";
+        let common = "Cases (stateful): a start position and 1-8 steps; each step navigates the game (extend by generated picks / take back 0-3 plies and extend / add an a-b-a-b shuffle so that the repetition filter triggers / jump to another curated root / ucinewgame / a forced four-ply cycle (perpetual check) so that the root has a single legal move which is also the move the repetition filter removes / search the parent of a mating or stalemating move to depth 3-5 and then the dead position itself / a search STOPPED by the hook after 0-159 polls followed by searches of every cached child and grandchild as roots of their own / a generated K+Q(+R) v K(+P) root searched to depth 5-7 followed by searches of up to 150 cached positions one and three plies further down - where the defender is to move and which the mate search visited off its principal line / state twins: a generated position with a legal en-passant capture is searched, then the same placement without the en-passant file or without one castling right, sharing the table) and then searches the reached position to depth 1-5, all steps sharing ONE transposition table, in-process (get_best_move_until_stop on a game built with push_history) or, for about 1 history in 6, through the real binary (`position fen … moves …`, `go depth d`, `wait`). ";
         match self.which {
             Which::C06 => format!("{}Oracle: the announced move is a legal move of the reference model's position; no move is announced iff the model has no legal move. evaluations = searches judged. Non-trivial search: the table already held an entry for the root when the search started, or the root has 1-2 legal moves, or a repetition pattern is present in the game record; distinct by (history, depth).", common),
             Which::C18 => format!("{}Oracle: every `info pv m1 … mk` line printed during a search of position P replays in the reference model: m1 legal in P, m2 legal in P·m1, … Every tier also searches (depth 4 and 5, fresh table) the roots among 120 000 (thorough 1.5 million) themed promotion constructions in which every key of the forced mate in two is an under-promotion, so that printed lines start with a promotion to knight, bishop or rook and go on from the promoted piece. evaluations = pv lines judged. Non-trivial line: k >= 2 and the table held entries from an earlier search; distinct by (position, line).", common),
